@@ -363,6 +363,20 @@ fn setup_n(rng: &mut Rng, sink: &mut Sink, nonempty: bool) -> Gw {
         sets.push(s);
     }
     let addr = sc("gateway");
+    if !nonempty && rng.chance(1, 8) {
+        // a deployment whose list of initial signer sets contains a malformed set, or the same set twice, at any
+        // position: refused as a whole (the sets registered at deployment obey the rotation rules)
+        let mut bad = a[..4].to_vec();
+        let good = rand_set(rng, 6).enc(&keys);
+        let evil = if rng.chance(1, 4) { good.clone() } else { malformed_set(rng, &keys) };
+        match rng.below(3) {
+            0 => bad.push(evil),
+            1 => { bad.push(good); bad.push(evil) }
+            _ => { bad.push(evil); bad.push(good) }
+        }
+        // (at an address of its own: the debug VM keeps the account of a failed deployment)
+        sink.exec(&format!("deploy gateway {} {} {}", hex::encode(&owner), hex::encode(sc("gateway-bad")), args(&bad)));
+    }
     let gw = Gw { keys, addr: addr.clone(), owner: owner.clone(), domain, sets, operator, now, msgs: vec![] };
     sink.exec(&format!("deploy gateway {} {} {}", hex::encode(&owner), hex::encode(&addr), args(&a)));
     gw
@@ -531,6 +545,9 @@ pub fn gen(rng: &mut Rng, n: usize, sink: &mut Sink, focus: &str) {
                             };
                             added.push(raw.clone());
                             a.push(raw);
+                        }
+                        if rng.chance(1, 2) {
+                            sink.exec(&format!("wipe {}", hex::encode(&gw.addr)));
                         }
                         let out = gw.tx(sink, &gw.owner.clone(), "upgradeContract", &a);
                         if out.starts_with("ok") {
